@@ -43,7 +43,9 @@ func NewPattern(components ...any) Pattern {
 			}
 			comps[len(comps)-1].Literal += string(v)
 		case Wildcard:
-			if len(comps) == 0 || comps[len(comps)-1].Literal != "" {
+			// start a new component unless the last one is a wildcard that has no literal yet
+			// (a leading empty literal must not swallow the wildcard that follows it)
+			if len(comps) == 0 || comps[len(comps)-1].Literal != "" || !comps[len(comps)-1].Wildcard {
 				comps = append(comps, patternComponent{Wildcard: true, Literal: ""})
 			}
 		default:
